@@ -2,6 +2,8 @@ package props
 
 import (
 	"fmt"
+	"regexp"
+	"strings"
 	"testing"
 	"testing/synctest"
 )
@@ -111,6 +113,53 @@ func FuzzC17(f *testing.F) {
 					}
 				}
 			}
+		}
+	})
+}
+
+var c14Canonical = regexp.MustCompile(`^permessage-deflate(; ?(client_no_context_takeover|server_no_context_takeover|server_max_window_bits=(8|9|1[0-5])))*$`)
+
+// FuzzC14: coverage-guided search over the TEXT of Sec-WebSocket-Extensions values - offers sent to
+// the server, responses sent to the client - where the enumerations and rapid lists of TestC14* draw
+// from fixed alphabets. Printable ASCII, as net/http delivers header values (surrounding blanks
+// trimmed). The oracles are the existing ones and one-sided on purpose: server - compression agreed
+// => some offer in the text can be honoured in full under a lenient reading and the answer is legal
+// for it (declining is always sound); client - a response with an extension or parameter the client
+// did not offer or cannot honour under ANY reading is rejected; "a response the client can honour was
+// rejected" is only demanded of canonically spelled responses. After every successful handshake the
+// six-message exchange runs with the reference peer applying the parameters as RFC 7692 reads them.
+func FuzzC14(f *testing.F) {
+	for _, h := range append(append([]string{}, c14Params...), c14RespParams...) {
+		f.Add(uint8(1), true, "permessage-deflate; "+h)
+		f.Add(uint8(2), false, "permessage-deflate; "+h)
+	}
+	for _, h := range []string{"", "permessage-deflate", "permessage-deflate, permessage-deflate; client_no_context_takeover", "x-webkit-deflate-frame, permessage-deflate", "permessage-deflate;client_max_window_bits=\"10\"", "permessage-deflate ; server_no_context_takeover ;", "Permessage-Deflate; Server_No_Context_Takeover", "permessage-deflate; server_max_window_bits = 15", ",,permessage-deflate;;"} {
+		f.Add(uint8(0), true, h)
+		f.Add(uint8(1), false, h)
+	}
+	f.Fuzz(func(t *testing.T, m uint8, server bool, text string) {
+		if len(text) > 300 {
+			t.Skip()
+		}
+		for i := 0; i < len(text); i++ {
+			if text[i] < 0x20 || text[i] > 0x7e {
+				t.Skip()
+			}
+		}
+		text = strings.TrimSpace(text)
+		mode := c01Modes[int(m)%len(c01Modes)]
+		c14NoHistory = true
+		var msg string
+		if server {
+			synctest.Test(t, func(t *testing.T) { msg, _ = runC14Server(t, c14ServerCase{Mode: mode, Offers: []string{text}, Lines: true}) })
+		} else {
+			synctest.Test(t, func(t *testing.T) { msg, _ = runC14Client(t, c14ClientCase{Mode: mode, Resp: text}) })
+			if strings.HasPrefix(msg, "a response the client can honour") && !c14Canonical.MatchString(text) {
+				msg = "" // an unusual spelling: rejecting it is a matter of taste
+			}
+		}
+		if msg != "" {
+			t.Fatalf("C14 fuzz server=%v mode=%s header %q: %s", server, modeName(mode), text, msg)
 		}
 	})
 }
